@@ -1070,7 +1070,12 @@ async fn serve_http1(shared: Arc<Shared>, ep: Arc<Endpoint>, mut stream: TcpStre
 async fn serve_h2(shared: Arc<Shared>, ep: Arc<Endpoint>, stream: TcpStream, conn: u64) {
     let mut shutdown = shared.shutdown.subscribe();
     let fd = stream.as_raw_fd();
-    let mut h2 = match h2::server::handshake(stream).await {
+    // Large flow-control windows: with the default 64 KiB window a 1 MiB request needs a dozen
+    // WINDOW_UPDATE round trips, and Nagle + delayed ACKs on loopback make each of them cost tens of
+    // milliseconds - more than the hook-shortened request timeout allows.
+    let mut builder = h2::server::Builder::new();
+    builder.initial_window_size(16 * 1024 * 1024).initial_connection_window_size(64 * 1024 * 1024).max_frame_size(1024 * 1024);
+    let mut h2 = match builder.handshake(stream).await {
         Ok(c) => c,
         Err(_) => {
             shared.close_conn(conn, false);
